@@ -125,12 +125,12 @@ def gen_size(rng, chunk_size, big):
     r = rng.random()
     if r < 0.12:
         return rng.choice([0, 1, 2, 3])
-    if r < 0.55 and chunk_size:
+    if r < 0.55 and chunk_size and (chunk_size <= 4096 or (big and chunk_size <= 65536)):
         k = rng.randrange(0, 6)
         return max(0, k * chunk_size + rng.choice([-1, 0, 1]))
-    if r < 0.97 or not big:
+    if r < 0.985 or not big:
         return rng.randrange(0, 3000 if (chunk_size and chunk_size < 32) else 70000)
-    return rng.randrange(1 << 20, (4 << 20) + 2)
+    return rng.choice([rng.randrange(1 << 20, (4 << 20) + 2), (4 << 20) + rng.choice([-1, 0, 1])])
 
 
 def gen_chunk_size(rng):
@@ -701,6 +701,7 @@ def w_notify(ctx: core.Ctx, arg):
                 m = re.search(rb'(?im)^content-encoding:[ \t]*(.*?)[ \t]*\r?$', head)
                 chosen = m.group(1).decode('latin-1') if m else None
                 ctx.count(f'notify.{mode}.notifications')
+                ctx.count(f'notify.{mode}.notifications_' + ('coded' if chosen else 'identity'))
                 verdict = judge_choice(ctx, 'notification', h, chosen, enabled,
                                        {'subscribe_accept_encoding': h, 'content_encoding': chosen, 'enabled': enabled, 'manager': mode})
                 try:
@@ -798,13 +799,13 @@ def run(ctx: core.Ctx):
     q = ctx.quick
     jobs = []
     for i in range(6 if q else 16):
-        jobs.append(['w_codec', {'i': i, 'n': 330 if q else 7000, 'big': not q or i == 1}])
+        jobs.append(['w_codec', {'i': i, 'n': 330 if q else 7000, 'big': (not q and i % 2 == 1) or i == 1}])
     for i in range(2 if q else 8):
-        jobs.append(['w_reject', {'i': i, 'n': 400 if q else 5000}])
+        jobs.append(['w_reject', {'i': i, 'n': 400 if q else 6000}])
     for i in range(4 if q else 14):
-        jobs.append(['w_l2', {'i': i, 'n': 220 if q else 3500, 'big': not q}])
+        jobs.append(['w_l2', {'i': i, 'n': 220 if q else 5000, 'big': not q and i % 4 == 0}])
     for i in range(2 if q else 6):
-        jobs.append(['w_clients', {'i': i, 'n': 120 if q else 2500}])
+        jobs.append(['w_clients', {'i': i, 'n': 120 if q else 4000}])
     for mode in ('sync', 'async'):
         for i in range(1 if q else 2):
             jobs.append(['w_notify', {'mode': mode, 'i': i, 'n': 20 if q else 400}])
@@ -825,6 +826,10 @@ def run(ctx: core.Ctx):
     ctx.floor('notify.async.notifications', 40)
     ctx.floor('wiring.provider.requests', 20)
     ctx.floor('wiring.consumer.requests', 20)
+    ctx.extra['observation_async_manager'] = (
+        f'async subscription manager: {ctx.counters.get("notify.async.notifications_coded", 0)} of {ctx.counters.get("notify.async.notifications", 0)} '
+        'notifications were content-coded (it hands the raw Accept-Encoding string to the soap client, which iterates it character by '
+        'character and therefore never finds a coding): no unacceptable coding is sent, so this is not a C17 violation')
     ctx.assumptions += [
         'peer model: the sender half-closes after its bytes (reads at the end return EOF); sockets are in-memory fakes built on io.BufferedReader',
         'Accept-Encoding values that are not valid per RFC 7231 5.3.4 (broken q-value, other parameters, contradictory duplicates) have no defined '
